@@ -72,6 +72,10 @@ pub trait Prefix: Sized {
     fn mask_lt(&self, other: &Self) -> (r: bool)
         ensures r == (self.mask_val() < other.mask_val());
 
+    /// `p_a.mask() == p_b.mask()` (rule R12)
+    fn mask_eq(&self, other: &Self) -> (r: bool)
+        ensures r == (self.mask_val() == other.mask_val());
+
     fn mask_cmp(&self, other: &Self) -> (r: core::cmp::Ordering)
         ensures
             (r is Less) == (self.mask_val() < other.mask_val()),
